@@ -1453,6 +1453,18 @@ def oracle_c13_e2e(R):
     if ev:
         largest = max(n for _, n in ev)
         burst = 3 * (thr + largest) * cfg_of(R)['max_request_concurrency']
+        # a stream that ends with a fault before it reached the read
+        # threshold is never charged (its attempt is over): each such attempt
+        # is one more "active stream" of the statement, with a residue below
+        # one threshold
+        per_call = {}
+        for (step, tid, k, info) in R.trace.events:
+            if k == 's3.stream':
+                per_call[info['call']] = per_call.get(info['call'], 0) \
+                    + info['n']
+        for c in R.trace.calls:
+            if c.get('stream_fault') is not None and c['id'] in per_call:
+                burst += min(per_call[c['id']], thr)
         pre = [0]
         for _, n in ev:
             pre.append(pre[-1] + n)
